@@ -1,3 +1,322 @@
-//! Driver for `CircularBuffer<N, u8>` (byte-stream I/O, C14/C16). Filled in below.
+//! Driver for `CircularBuffer<N, u8>`: byte-stream I/O through std::io and, when the build has
+//! them, the embedded-io / embedded-io-async traits (C14, C16). Records, judges nothing.
+
+use crate::drv::{call, gi, gs, gv};
+use crate::ev::{dec, enc, Ev, Post, Ret};
+use circular_buffer::CircularBuffer;
 use serde_json::Value;
-pub fn run(_sc: &Value, _scn: &str, _steps: &[Value]) -> Option<String> { None }
+use std::panic::{catch_unwind, AssertUnwindSafe};
+
+type Buf<const N: usize> = CircularBuffer<N, u8>;
+
+struct BDrv<const N: usize> {
+    buf: *mut Buf<N>,
+    off: usize,
+    out: String,
+    scn: String,
+}
+
+#[cfg(feature = "eio-async")]
+fn poll_once<F: std::future::Future>(f: F) -> Option<F::Output> {
+    use std::task::{Context, Poll, Waker};
+    let mut f = std::pin::pin!(f);
+    let w = Waker::noop();
+    let mut cx = Context::from_waker(&w);
+    match f.as_mut().poll(&mut cx) {
+        Poll::Ready(x) => Some(x),
+        Poll::Pending => None,
+    }
+}
+
+impl<const N: usize> BDrv<N> {
+    fn calibrate() -> usize {
+        if N == 0 {
+            return 0;
+        }
+        let mut b: Box<Buf<N>> = Box::new(Buf::<N>::new());
+        for _ in 0..N {
+            let _ = b.push_back(0);
+        }
+        let base = &*b as *const Buf<N> as usize;
+        let mut min = usize::MAX;
+        for x in b.iter() {
+            min = min.min(x as *const u8 as usize);
+        }
+        if min == usize::MAX {
+            0
+        } else {
+            min - base
+        }
+    }
+
+    fn slot_of(&self, x: *const u8) -> i64 {
+        let base = self.buf as usize + self.off;
+        let a = x as usize;
+        if a < base || a - base >= N {
+            -1
+        } else {
+            (a - base) as i64
+        }
+    }
+
+    fn obs(&self) -> Post {
+        if self.buf.is_null() {
+            return Post::default();
+        }
+        let r = catch_unwind(AssertUnwindSafe(|| {
+            let b = unsafe { &*self.buf };
+            let (a, c) = b.as_slices();
+            let mut post = Post {
+                obs: true,
+                len: enc(b.len()),
+                empty: b.is_empty(),
+                full: b.is_full(),
+                split: a.len() as i64,
+                cap: enc(b.capacity()),
+                ..Default::default()
+            };
+            for x in a.iter().chain(c.iter()) {
+                post.seq.push(*x as i64);
+                post.vals.push(*x as i64);
+                post.slots.push(self.slot_of(x));
+            }
+            post
+        }));
+        r.unwrap_or(Post { obs: true, len: -2, ..Default::default() })
+    }
+
+    fn emit(&mut self, mut ev: Ev) {
+        ev.scn = self.scn.clone();
+        ev.feat = crate::FEAT;
+        ev.ty = "b";
+        ev.cap = N as i64;
+        ev.write(&mut self.out);
+    }
+
+    fn step(&mut self, st: &Value) {
+        let op = gs(st, "op").to_string();
+        let fam = {
+            let f = gs(st, "fam");
+            if f.is_empty() { "std" } else { f }
+        }
+        .to_string();
+        let mut ev = Ev::new("call", &op);
+        ev.h = 0;
+        ev.acc = fam.clone();
+        let i = gi(st, "i", 0);
+        ev.i = i;
+        if op == "new" {
+            let b = Box::new(Buf::<N>::new());
+            self.buf = Box::into_raw(b);
+            ev.post = self.obs();
+            ev.allocs = -1;
+            return self.emit(ev);
+        }
+        if self.buf.is_null() {
+            return;
+        }
+        let b: &mut Buf<N> = unsafe { &mut *self.buf };
+        match op.as_str() {
+            "write" => {
+                let data: Vec<u8> = gv(st, "vals").iter().map(|x| *x as u8).collect();
+                ev.vals = data.iter().map(|x| *x as i64).collect();
+                // (count, is_err, pending)
+                let r: Option<(usize, bool, bool)> = match fam.as_str() {
+                    "std" => call(&mut ev, None, || match std::io::Write::write(b, &data) {
+                        Ok(n) => (n, false, false),
+                        Err(_) => (0, true, false),
+                    }),
+                    #[cfg(feature = "eio")]
+                    "eio" => call(&mut ev, None, || match embedded_io::Write::write(b, &data) {
+                        Ok(n) => (n, false, false),
+                        Err(_) => (0, true, false),
+                    }),
+                    #[cfg(feature = "eio-async")]
+                    "eio_async" => call(&mut ev, None, || match poll_once(embedded_io_async::Write::write(b, &data)) {
+                        Some(Ok(n)) => (n, false, false),
+                        Some(Err(_)) => (0, true, false),
+                        None => (0, false, true),
+                    }),
+                    _ => return,
+                };
+                if let Some((n, err, pend)) = r {
+                    ev.ret = Ret { k: if err { "err" } else { "n" }, n: enc(n), b: pend, ..Default::default() };
+                }
+            }
+            "flush" => {
+                let r: Option<(bool, bool)> = match fam.as_str() {
+                    "std" => call(&mut ev, None, || (std::io::Write::flush(b).is_err(), false)),
+                    #[cfg(feature = "eio")]
+                    "eio" => call(&mut ev, None, || (embedded_io::Write::flush(b).is_err(), false)),
+                    #[cfg(feature = "eio-async")]
+                    "eio_async" => call(&mut ev, None, || match poll_once(embedded_io_async::Write::flush(b)) {
+                        Some(r) => (r.is_err(), false),
+                        None => (false, true),
+                    }),
+                    _ => return,
+                };
+                if let Some((err, pend)) = r {
+                    ev.ret = Ret { k: if err { "err" } else { "ok" }, b: pend, ..Default::default() };
+                }
+            }
+            "read" => {
+                let k = dec(i).min(1 << 16);
+                let mut dst = vec![0xEEu8; k];
+                let r: Option<(usize, bool, bool)> = match fam.as_str() {
+                    "std" => call(&mut ev, None, || match std::io::Read::read(b, &mut dst) {
+                        Ok(n) => (n, false, false),
+                        Err(_) => (0, true, false),
+                    }),
+                    #[cfg(feature = "eio")]
+                    "eio" => call(&mut ev, None, || match embedded_io::Read::read(b, &mut dst) {
+                        Ok(n) => (n, false, false),
+                        Err(_) => (0, true, false),
+                    }),
+                    #[cfg(feature = "eio-async")]
+                    "eio_async" => call(&mut ev, None, || match poll_once(embedded_io_async::Read::read(b, &mut dst)) {
+                        Some(Ok(n)) => (n, false, false),
+                        Some(Err(_)) => (0, true, false),
+                        None => (0, false, true),
+                    }),
+                    _ => return,
+                };
+                if let Some((n, err, pend)) = r {
+                    ev.ret = Ret {
+                        k: if err { "err" } else { "n" },
+                        n: enc(n),
+                        b: pend,
+                        ids: dst[..n.min(k)].iter().map(|x| *x as i64).collect(),
+                        // the rest of the destination must be untouched
+                        ids2: dst[n.min(k)..].iter().map(|x| *x as i64).collect(),
+                        ..Default::default()
+                    };
+                }
+            }
+            "fill_buf" => {
+                let r: Option<(Vec<u8>, Vec<i64>, bool, bool)> = {
+                    let me: &BDrv<N> = unsafe { &*(self as *const BDrv<N>) };
+                    let conv = |s: &[u8]| (s.to_vec(), s.iter().map(|x| me.slot_of(x)).collect::<Vec<i64>>());
+                    match fam.as_str() {
+                        "std" => call(&mut ev, None, || match std::io::BufRead::fill_buf(b) {
+                            Ok(s) => {
+                                let (v, sl) = conv(s);
+                                (v, sl, false, false)
+                            }
+                            Err(_) => (vec![], vec![], true, false),
+                        }),
+                        #[cfg(feature = "eio")]
+                        "eio" => call(&mut ev, None, || match embedded_io::BufRead::fill_buf(b) {
+                            Ok(s) => {
+                                let (v, sl) = conv(s);
+                                (v, sl, false, false)
+                            }
+                            Err(_) => (vec![], vec![], true, false),
+                        }),
+                        #[cfg(feature = "eio-async")]
+                        "eio_async" => call(&mut ev, None, || match poll_once(embedded_io_async::BufRead::fill_buf(b)) {
+                            Some(Ok(s)) => {
+                                let (v, sl) = conv(s);
+                                (v, sl, false, false)
+                            }
+                            Some(Err(_)) => (vec![], vec![], true, false),
+                            None => (vec![], vec![], false, true),
+                        }),
+                        _ => return,
+                    }
+                };
+                if let Some((v, sl, err, pend)) = r {
+                    ev.ret = Ret {
+                        k: if err { "err" } else { "ids" },
+                        ids: v.iter().map(|x| *x as i64).collect(),
+                        slots: sl,
+                        b: pend,
+                        ..Default::default()
+                    };
+                    ev.allocs = -1;
+                }
+            }
+            "consume" => {
+                let k = dec(i);
+                let r = match fam.as_str() {
+                    "std" => call(&mut ev, None, || std::io::BufRead::consume(b, k)),
+                    #[cfg(feature = "eio")]
+                    "eio" => call(&mut ev, None, || embedded_io::BufRead::consume(b, k)),
+                    #[cfg(feature = "eio-async")]
+                    "eio_async" => call(&mut ev, None, || embedded_io_async::BufRead::consume(b, k)),
+                    _ => return,
+                };
+                if r.is_some() {
+                    ev.ret = Ret::unit();
+                }
+            }
+            "poison" => {
+                let pat = match gs(st, "acc") {
+                    "00" => 0x00u8,
+                    "ff" => 0xFF,
+                    _ => 0x5A,
+                };
+                ev.acc = gs(st, "acc").to_string();
+                if N > 0 {
+                    let mut occ = vec![false; N];
+                    let (a, c) = b.as_slices();
+                    for x in a.iter().chain(c.iter()) {
+                        let s = self.slot_of(x);
+                        if s >= 0 {
+                            occ[s as usize] = true;
+                        }
+                    }
+                    let base = (self.buf as usize + self.off) as *mut u8;
+                    for s in 0..N {
+                        if !occ[s] {
+                            unsafe { base.add(s).write(pat) };
+                        }
+                    }
+                }
+                ev.allocs = -1;
+            }
+            _ => return,
+        }
+        ev.post = self.obs();
+        self.emit(ev);
+    }
+}
+
+fn run_n<const N: usize>(scn: &str, steps: &[Value]) -> String {
+    let mut d = BDrv::<N> { buf: std::ptr::null_mut(), off: BDrv::<N>::calibrate(), out: String::new(), scn: scn.to_string() };
+    let mut b = Ev::new("begin", "begin");
+    b.scn = scn.to_string();
+    b.cap = N as i64;
+    b.feat = crate::FEAT;
+    b.ty = "b";
+    b.write(&mut d.out);
+    for st in steps {
+        d.step(st);
+    }
+    if !d.buf.is_null() {
+        unsafe { drop(Box::from_raw(d.buf)) };
+    }
+    let mut e = Ev::new("end", "end");
+    e.scn = scn.to_string();
+    e.ty = "b";
+    e.cap = N as i64;
+    e.feat = crate::FEAT;
+    e.write(&mut d.out);
+    d.out
+}
+
+pub fn run(sc: &Value, scn: &str, steps: &[Value]) -> Option<String> {
+    let n = sc.get("n").and_then(|v| v.as_u64()).unwrap_or(0);
+    Some(match n {
+        0 => run_n::<0>(scn, steps),
+        1 => run_n::<1>(scn, steps),
+        2 => run_n::<2>(scn, steps),
+        3 => run_n::<3>(scn, steps),
+        4 => run_n::<4>(scn, steps),
+        5 => run_n::<5>(scn, steps),
+        6 => run_n::<6>(scn, steps),
+        8 => run_n::<8>(scn, steps),
+        16 => run_n::<16>(scn, steps),
+        33 => run_n::<33>(scn, steps),
+        _ => return None,
+    })
+}
